@@ -85,7 +85,7 @@ class C09(Check):
     level = "fault_enumeration"
     rule = ""
     assumptions = ["contents compared by Python string equality / UTF-8 byte order", "collections start only at allocation points; deviation bound: 1 forced collection (+ every/never schedules)",
-                   "method-name and field-name lookups by run-time strings are not expressible in the language (no reflection) and are not exercised"]
+                   "field, method, class and export names are reached through code compiled after the collections (a module imported later); there is no reflection by run-time strings"]
 
     def __init__(self, progs, base):
         self.progs = progs
@@ -154,8 +154,38 @@ def special_programs():
     return out
 
 
+def name_programs():
+    """names are strings too: field, method, static method, class, function and export names live in the same intern table. A module
+    declares them (its methods reach their fields by slot, so no constant keeps the name), the declaring script function
+    is dead once the import is over, collections run, and code compiled afterwards (a second module) must find every name
+    through an equal string created later."""
+    shapes = ("export class Rect { init(w, h) { self.width = w; self.height = h; } area() { return self.width * self.height; } grow() { self.width = self.width + 1; return self; } "
+              "static unit() { return Rect(1, 1); } }\nexport fn make() { return Rect(3, 4); }\nexport let label = 'rect';\nlet hidden = 'h';\n")
+    uses = {
+        "field_get": ("export fn show(r) { return [r.width, r.height]; }", "[3, 4]"),
+        "field_set": ("export fn show(r) { r.width = 7; r.height += 1; return [r.width, r.height, r.area()]; }", "[7, 5, 35]"),
+        "method": ("export fn show(r) { return [r.area(), r.grow().area()]; }", "[12, 16]"),
+        "bound_method": ("export fn show(r) { let a = r.area; let g = r.grow; g(); return a(); }", "16"),
+        "static": ("export fn show(r) { return r.cls().unit().area(); }", "1"),
+        "class_name": ("export fn show(r) { return [r.cls().name(), r.cls().name() == 'Re' + 'ct', {'Rect': 1}[r.cls().name()]]; }", "['Rect', true, 1]"),
+        "map_of_names": ("export fn show(r) { let m = {'width': r.width, 'height': r.height}; return [m['wid' + 'th'], m.has('height'), 'width'.len()]; }", "[3, true, 5]"),
+        "subclass_late": ("import self.shapes:{Rect};\nclass Sq : Rect { init(s) { super.init(s, s); } side() { return self.width; } }\nexport fn show(r) { let q = Sq(5); return [q.side(), q.area(), q.height, r.width]; }", "[5, 25, 5, 3]"),
+        "export_symbol": ("import self.shapes:{label, make};\nexport fn show(r) { return [label, make().height, label == 're' + 'ct']; }", "['rect', 4, true]"),
+        "missing": ("export fn show(r) { try { return r.widht; } catch e { return e.cls().name(); } }", "PropertyError"),
+    }
+    out = []
+    for gcs in ("", "print('@@gc full');\nlet pad = [0];\n", "print('@@gc nursery');\nlet pad = [0];\nprint('@@gc full');\nlet pad2 = [1];\n"):
+        for name, (report, want) in uses.items():
+            main = ("import self.shapes;\nlet r = shapes.make();\nprint(r.area());\n%slet junk = []; for i in 40.times() { junk.push('s' + i.str()); }\n"
+                    "import self.report;\nprint(report.show(r));\nprint(report.show(shapes.make()));\n" % gcs)
+            out.append({"p": "name:" + name, "q": "gc_markers=%d" % gcs.count("@@gc"), "t": "names", "equal": True, "prefix": False, "light": True,
+                        "files": {"/v/main.lay": main, "/v/shapes.lay": shapes, "/v/report.lay": report + "\n"},
+                        "expected": "12\n%s\n%s\n" % (want if name not in ("field_set", "method", "bound_method") else want, want)})
+    return out
+
+
 def build_programs(tier):
-    progs = special_programs()
+    progs = special_programs() + name_programs()
     for t, t2 in TARGETS:
         names = list(producers(t))
         light = (t != "foo")
